@@ -225,8 +225,12 @@ func (h *DNSHandler) ProcessNBNS(host *packet.Host, ether packet.Ether, payload 
 	if err := dns.IsValid(); err != nil {
 		return name, err
 	}
-	if Debug {
+	if Debug && host != nil {
+		host.MACEntry.Row.RLock() // host fields are updated under the row lock
 		Logger.Msg("new nbns packet").Stringer(host).Struct(dns).Write()
+		host.MACEntry.Row.RUnlock()
+	} else if Debug {
+		Logger.Msg("new nbns packet").Struct(dns).Write()
 	}
 	var p dnsmessage.Parser
 	dnsHeader, err := p.Start(payload)
